@@ -361,7 +361,7 @@ def run_shard(spec, acc):
         pool = hist.Pool(dbx, rng, n_single=5, n_fast=4)
         cfg = make_config(rng)
         sources = hist.pick_sources(rng, 3)
-        claims = {s: [hist.claim_name(hist.pick_unique_number(rng), rng.choice([1851, 1855, 229, 137]))] for s in sources}
+        claims = {s: [hist.claim_name(hist.pick_unique_number(rng), rng.choice([1851, 1855, 229, 137])), hist.pick_name(rng)] for s in sources}
         events = hist.build_history(pool, rng, sources, 40 if quick else 120, claims, p_claim=0.1)
         # sequence counters of the history: within 0..5 (6/7 are reserved for the probes) and different from the
         # previous message of the same stream
